@@ -265,3 +265,18 @@ def programs():
         "wide": FN(["w"], ["i128"], "i128", [SET(V("w"), B("+", V("w"), L(1, "i128"), "i128")), RET(V("w"))])},
         "main": [LET("b", "i128", L(170141183460469231731687303715884105726, "i128")), P(CALL("wide", V("b"))), P(V("b"))]}))
     return out
+
+
+def witnesses():
+    """Programs that reproduce recorded findings of the FerretSem family (KNOWN_FINDINGS.json, keys
+    C01|witness|<name>): run on every invocation; the generator does not produce their class."""
+    out = []
+    out.append(("incdec_dynamic_element", {"types": [], "funcs": {},
+        "main": [LET("d", "[]i64", A(L(5, "i64"), L(6, "i64"))),
+                 {"k": "opassign", "op": "+", "lv": IX(V("d"), 0), "e": L(1, "i64"), "ty": tyj(BYNAME["i64"]), "incdec": True},
+                 P(IX(V("d"), 0)), P(IX(V("d"), 1))]}))
+    out.append(("opassign_wide_element", {"types": [], "funcs": {},
+        "main": [LET("a", "[3]i256", A(L(2, "i256"), L(1, "i256"), L(-2, "i256"))),
+                 {"k": "opassign", "op": "-", "lv": IX(V("a"), 2), "e": L(3, "i256"), "ty": tyj(BYNAME["i256"])},
+                 P(IX(V("a"), 2)), P(IX(V("a"), 0))]}))
+    return out
